@@ -1,5 +1,11 @@
 import FranzVerif.Model.Idem
-/-! History-level observables for the idempotent-producing monitor (C02) and helper lemmas. -/
+/-! History-level observables for the idempotent-producing monitor (C02) and helper lemmas.
+
+Layout of the proof:
+* this file: the observables, how each changes on `h ++ [ev]`, small list lemmas;
+* `Proof/IdemInv.lean`: the invariant `Inv h s` relating the monitor state reached by `run` to the
+  observables of the history, its preservation by every accepted event (one lemma per event kind),
+  `inv_of_run`, `run_append`, `run_split`, `run_snoc`, and what the check at `quiesce` says. -/
 namespace Proof.Idem
 open Model.Idem
 
@@ -14,5 +20,106 @@ def calledIds (h : List Ev) : List Id :=
 /-- `a`'s produce call returned before `b`'s began -/
 def returnedBefore (h : List Ev) (a b : Id) : Prop :=
   ∃ h₁ h₂ h₃ p, h = h₁ ++ Ev.ret a :: h₂ ++ Ev.call b p :: h₃
+
+/-- ids whose produce call has returned -/
+def retsOf (h : List Ev) : List Id :=
+  h.filterMap (fun e => match e with | .ret i => some i | _ => none)
+
+/-! ### per-event projections -/
+
+def logEv : Ev → Option (Nat × Nat × Id)
+  | .logEntry p o i => some (p, o, i) | _ => none
+def promEv : Ev → Option (Id × Bool × Nat × Int)
+  | .promise i ok p o => some (i, ok, p, o) | _ => none
+def callEv : Ev → Option Id
+  | .call i _ => some i | _ => none
+def retEv : Ev → Option Id
+  | .ret i => some i | _ => none
+/-- the batch of a `wreq` event of the stream `(part, pid, epoch)` with sequence number `seq` -/
+def batchEv (part pid : Nat) (epoch : Int) (seq : Nat) : Ev → Option Batch
+  | .wreq _ _ p pi ep sq cnt ids =>
+    if p = part ∧ pi = pid ∧ ep = epoch ∧ sq = seq then some ⟨p, pi, ep, sq, cnt, ids⟩ else none
+  | _ => none
+
+/-- the batch carried by the most recent `wreq` of the stream `(part, pid, epoch)` with number `seq` -/
+def lastBatch (part pid : Nat) (epoch : Int) (seq : Nat) (h : List Ev) : Option Batch :=
+  (h.filterMap (batchEv part pid epoch seq)).getLast?
+
+/-- `b` is a batch of the stream `(part, pid, epoch)` with sequence number `seq` -/
+def isKey (part pid : Nat) (epoch : Int) (seq : Nat) (b : Batch) : Bool :=
+  sameStream b part pid epoch && b.seq == seq
+
+theorem logOf_eq (h : List Ev) : logOf h = h.filterMap logEv := rfl
+theorem promisesOf_eq (h : List Ev) : promisesOf h = h.filterMap promEv := rfl
+theorem calledIds_eq (h : List Ev) : calledIds h = h.filterMap callEv := rfl
+theorem retsOf_eq (h : List Ev) : retsOf h = h.filterMap retEv := rfl
+
+theorem logOf_snoc (h : List Ev) (ev : Ev) : logOf (h ++ [ev]) = logOf h ++ (logEv ev).toList := by
+  simp only [logOf_eq, List.filterMap_append]; cases hh : logEv ev <;> simp [hh]
+theorem promisesOf_snoc (h : List Ev) (ev : Ev) :
+    promisesOf (h ++ [ev]) = promisesOf h ++ (promEv ev).toList := by
+  simp only [promisesOf_eq, List.filterMap_append]; cases hh : promEv ev <;> simp [hh]
+theorem calledIds_snoc (h : List Ev) (ev : Ev) :
+    calledIds (h ++ [ev]) = calledIds h ++ (callEv ev).toList := by
+  simp only [calledIds_eq, List.filterMap_append]; cases hh : callEv ev <;> simp [hh]
+theorem retsOf_snoc (h : List Ev) (ev : Ev) : retsOf (h ++ [ev]) = retsOf h ++ (retEv ev).toList := by
+  simp only [retsOf_eq, List.filterMap_append]; cases hh : retEv ev <;> simp [hh]
+theorem lastBatch_snoc (part pid : Nat) (epoch : Int) (seq : Nat) (h : List Ev) (ev : Ev) :
+    lastBatch part pid epoch seq (h ++ [ev]) =
+      (batchEv part pid epoch seq ev).or (lastBatch part pid epoch seq h) := by
+  simp only [lastBatch, List.filterMap_append]
+  cases hh : batchEv part pid epoch seq ev <;> simp [hh]
+
+theorem logOf_append (h₁ h₂ : List Ev) : logOf (h₁ ++ h₂) = logOf h₁ ++ logOf h₂ := by
+  simp [logOf_eq]
+theorem promisesOf_append (h₁ h₂ : List Ev) : promisesOf (h₁ ++ h₂) = promisesOf h₁ ++ promisesOf h₂ := by
+  simp [promisesOf_eq]
+theorem retsOf_append (h₁ h₂ : List Ev) : retsOf (h₁ ++ h₂) = retsOf h₁ ++ retsOf h₂ := by
+  simp [retsOf_eq]
+
+/-- the most recent `wreq` of a stream and number, when no later event of `h₂` is one -/
+theorem lastBatch_decomp (part pid : Nat) (epoch : Int) (seq : Nat) (h₁ h₂ : List Ev)
+    (n act cnt : Nat) (ids : List Id)
+    (hno : ∀ n' act' cnt' ids', Ev.wreq n' act' part pid epoch seq cnt' ids' ∉ h₂) :
+    lastBatch part pid epoch seq (h₁ ++ Ev.wreq n act part pid epoch seq cnt ids :: h₂) =
+      some ⟨part, pid, epoch, seq, cnt, ids⟩ := by
+  have h2 : h₂.filterMap (batchEv part pid epoch seq) = [] := by
+    rw [List.filterMap_eq_nil_iff]
+    intro ev hev
+    cases ev with
+    | wreq n' act' p pi ep sq cnt' ids' =>
+      simp only [batchEv]
+      split
+      · rename_i hk
+        obtain ⟨rfl, rfl, rfl, rfl⟩ := hk
+        exact absurd hev (hno _ _ _ _)
+      · rfl
+    | _ => rfl
+  simp [lastBatch, List.filterMap_append, batchEv, h2]
+
+/-! ### small list lemmas -/
+
+theorem any_fst_iff {β : Type} (l : List (Id × β)) (id : Id) :
+    l.any (fun x => x.1 == id) = true ↔ id ∈ l.map (·.1) := by
+  simp only [List.any_eq_true, List.mem_map, beq_iff_eq]
+
+theorem find_fst_some {β : Type} {l : List (Id × β)} {id : Id} {x : Id × β}
+    (h : l.find? (fun x => x.1 == id) = some x) : x ∈ l ∧ x.1 = id :=
+  ⟨List.mem_of_find?_eq_some h, by simpa using List.find?_some h⟩
+
+/-- in an association list with distinct keys, `find?` returns the entry of the key -/
+theorem find_fst_of_mem {β : Type} {l : List (Id × β)} (hn : (l.map (·.1)).Nodup) {k : Id} {v : β}
+    (hm : (k, v) ∈ l) : l.find? (fun x => x.1 == k) = some (k, v) := by
+  induction l with
+  | nil => cases hm
+  | cons x xs ih =>
+    rw [List.map_cons, List.nodup_cons] at hn
+    rw [List.find?_cons]
+    rcases List.mem_cons.1 hm with hx | hx
+    · subst hx; simp
+    · have hne : x.1 ≠ k := by
+        intro he; apply hn.1; rw [he]; exact List.mem_map.2 ⟨(k, v), hx, rfl⟩
+      have : (x.1 == k) = false := by simpa using hne
+      rw [this]; exact ih hn.2 hx
 
 end Proof.Idem
